@@ -465,6 +465,18 @@ M("C13", "M13-1-fill_buffer-clears-drained-slots", dict(
   title="BufferedUnionScorer::fill_buffer: a document taken out of the window (pop_lowest = Some) has its score slot cleared before the window is refilled or the call returns - otherwise the slot's old contribution is added to the document that reuses the slot after the refill (score depends on how the document was reached); advance_buffered does clear",
   functions=["BufferedUnionScorer::fill_buffer"], bounds="unroll 2")
 
+M("C06", "M06-4-pruning-guards-compare-with-ReadFreq", dict(
+    kind="guard",
+    subject=r"TermScorer::freq_reading_option$",
+    required=("postings::FreqReadingOption", "ReadFreq"),
+    native=[("api_ok", "top1_basic_multivalued"), ("probe", "topk_union_with_freqless_term")],
+    sites=[dict(body=r"^query::boolean_query::boolean_weight::scorer_union::\{closure#\d+\}$", mode="closure_true", expect=1),
+           dict(body=r"^query::boolean_query::boolean_weight::" + I + r"::complex_scorer::\{closure#\d+\}$", mode="closure_true", expect=1),
+           dict(body=r"^query::term_query::term_weight::" + I + r"::for_each_pruning$", mode="before_call", target=r"block_wand_single_scorer$", expect=1)]),
+  title="block-max pruning is only chosen for term scorers that *read* frequencies: the three guards (union, intersection, single term) pass only when freq_reading_option() == ReadFreq - block-max metadata is written only then (value-level: the comparison constant and operator are executed, not just the presence of the call)",
+  functions=["boolean_weight::scorer_union::{closure}", "BooleanWeight::complex_scorer::{closure}", "TermWeight::for_each_pruning"],
+  bounds="every path of the three bodies; values the executor does not model are unconstrained")
+
 M("C02", "M02-4-uncommitted-merge-target", dict(
     root=SU + r"consider_merge_options$", depth=1, unroll=2, inline=[], auto_inline=False,
     events={"stamp": {"call": r"Stamper::stamp$"},
@@ -724,3 +736,17 @@ M("C03", "M03-1-json-range-bound-transformations", dict(
   bounds="all 64-bit literals x all 64-bit column values; i64 / u64 literals on i64 / u64 columns; f64 columns and f64 literals outside (f64 literals: K03-f64-bounds-*)",
   assumes=["BoundsRange::transform_inner / map_bound apply the closure to the inner value and keep the bound kind for TransformBound::Existing (K03-transform-bound)",
            "search_on_u64_ff selects the rows whose mapped value satisfies the transformed bounds (bound_to_value_range: K03-bound-to-range; column scan: C08)"])
+
+
+# =============================================================================================
+# C17: the key a fresh segment of a sorted index is ordered by (mirbv on the columnar crate's MIR)
+# =============================================================================================
+M("C17", "M17-1-segment-sort-key-is-order-preserving", dict(
+    kind="sortkey", crate="columnar",
+    closure=r"^columnar::writer::" + I + r"::sort_order::\{closure#\d+\}$",
+    param=r"_2: value::NumericalValue", ret="std::option::Option<u64>", enum="value::NumericalValue",
+    variants=[("I64", "i64"), ("U64", "u64")]),
+  title="ColumnarWriter::sort_order: the u64 key a numerical sort field is compared by preserves the order of the values (i64 and u64 variants): a < b iff key(a) < key(b) - the permutation of a freshly written segment of a sorted index is computed from these keys",
+  functions=["ColumnarWriter::sort_order::{closure} (value -> key)"],
+  bounds="all pairs of 64-bit values, i64 and u64 variants; the f64 variant goes through common::f64_to_u64 (K03-f64-order); the stable sort on the keys, null placement and the `reversed` flag are outside",
+  assumes=["the i64 / u64 maps are the ones modelled (K03-map-i64, K03-map-columnar)"])
